@@ -180,6 +180,17 @@ def unique_handle(chk, db, rule):
             if key in seen_sites:
                 continue
             seen_sites.add(key)
+            # the resource is handed to the OS exactly once: a retry loop around ::close (EINTR) closes a descriptor number that
+            # may already belong to someone else
+            os_calls = [c for c in ir.calls(g['body']) if not (c.get('callee') or {}).get('nop')]
+            in_loop = [c for lp in ir.walk(g['body']) if lp.get('k') in ('for', 'while', 'do') for c in ir.calls(lp)
+                       if not (c.get('callee') or {}).get('nop')]
+            if os_calls:
+                chk.decide(len(os_calls) == 1 and not in_loop, rule, facts.site(g) + ' ' + g['rec'].replace('nop::', '')[:40] + ' once',
+                           '%s::Close releases the resource through %d call(s)%s' % (g['rec'].replace('nop::', '')[:40], len(os_calls),
+                                                                                     ', repeated in a loop' if in_loop else ''), function=ir.fn_label(g))
+                if in_loop:
+                    continue
             w = absx.World(db)
             w.cells[('X', 'v')] = 5
             it = absx.Interp(w)
